@@ -49,6 +49,15 @@ def corpus():
                       ("set", keys[0][:1] + b"\x99", b"z" * 40, "meth"), ("get", keys[1], "meth")]
             out.append({"prune": prune, "writes": writes, "batched_build": False, "m": m, "seed": 5 + len(keys),
                         "long": None, "probes": probes, "all_subsets": True})
+        # a write that creates a node byte-identical to a live node elsewhere in the trie (same remaining path, same value):
+        # when that other node's body is the absent one, the write is off its path, succeeds, and must store the twin
+        V = b"V" * 40
+        writes = [("set", bytes.fromhex("10aa"), V, "meth"), ("set", bytes.fromhex("356000"), b"1" * 40, "meth"),
+                  ("set", bytes.fromhex("357000"), b"2" * 40, "meth")]
+        probes = [("set", bytes.fromhex("3550aa"), V, "meth"), ("get", bytes.fromhex("3550aa"), "meth"),
+                  ("get", bytes.fromhex("10aa"), "meth"), ("del", bytes.fromhex("3550aa"), "meth")]
+        out.append({"prune": prune, "writes": writes, "batched_build": False, "m": {w[1]: w[2] for w in writes}, "seed": 11,
+                    "long": None, "probes": probes, "all_subsets": True})
     return out
 
 
@@ -124,7 +133,17 @@ def run_case(case, tier):
             out = HX.step(t, op, backing)
             outs.append(out)
             if op[0] in ("set", "del", "batch") and not (isinstance(out, Exc) or (op[0] == "batch" and out[1] is not None)):
+                cback.log = []
                 HX.step(tc, op, cback)          # mirror successful writes only
+                written, cback.log = set(cback.log), None
+                if bad is None and op[0] != "batch" and not inside and bytes(t.root_hash) == bytes(tc.root_hash):
+                    # same result also in the database: a node of the new trie may be absent only if it was absent before
+                    # and the operation (as run on the complete database) did not store it
+                    gone = [h for h in HX.reachable(cback, tc.root_hash) if not dict.__contains__(backing, h)]
+                    for h in gone:
+                        if h in written or h not in removed:
+                            bad = (f"{op[0]} succeeded on the incomplete database but did not store node {h.hex()[:12]}, which the "
+                                   "same call stores on the complete database: the new trie is unreadable")
                 if bad is None and op[0] != "batch" and not inside and bytes(t.root_hash) != bytes(tc.root_hash):
                     bad = (f"{op[0]} on the incomplete database succeeded with a different result (root hash) than on the "
                            "complete database instead of raising MissingTrieNode")
